@@ -7,6 +7,7 @@ CONSTANTS
   MaxCrash = 20
   MaxCreate = 20
   MaxHist = 200
+  MaxHistUnlisted = 200
   RECORD_FIRST = FALSE
   OVERWRITE = FALSE
   READ_LIVE = FALSE
